@@ -41,6 +41,13 @@ def loadOne (w : World) (relpath : Str) (verifyEntry : Option Entry) : Except Er
     match m.manifest with
     | none => throw .abstain
     | some .corrupt => throw .compress
+    | some (.broken pre) =>
+      -- the lines are parsed as they arrive: a syntax error in the part delivered comes first
+      match loadLines {} (splitLines (univNewlines pre)) with
+      | .error .syntax => throw .syntax
+      | .error .unsignedData => throw .unsigned
+      | .error (.internal k) => throw (.internal k)
+      | .ok _ => throw .compress
     | some (.text t) =>
       match loadFile t with
       | .ok l => pure l.entries
